@@ -331,6 +331,15 @@ def gen_modspec(rng, name, big):
         """the class introducing a limit parameter: the class of the parameter, or any class above it"""
         return lp if rng.random() < 0.5 else rng.randrange(lp, nlayers)
 
+    def add_limit(lim, lp):
+        """declare the limit parameter; now and then a derived class declares it AGAIN (`<p>_max = Limit()` overriding the
+        inherited one): the automatic check belongs to the class that defined it FIRST"""
+        ll = limit_layer(lp)
+        layers[ll]['params'].append(lim)
+        above = [i for i in full if i > ll]
+        if above and rng.random() < 0.15:
+            layers[rng.choice(above)]['params'].append(dict(lim, has_write=False, redeclared=True))
+
     for i in range(nparams):
         attr = names.pop()
         numeric = rng.random() < 0.5
@@ -346,7 +355,7 @@ def gen_modspec(rng, name, big):
                 # (Limit(export=False) cannot be declared: Limit.__set_name__ calls export.startswith)
                 lim = {'attr': attr + '_' + lk, 'limit': attr, 'export': True,
                        'readonly': rng.random() < 0.1, 'has_write': rng.random() < 0.3, 'has_read': False}
-                layers[limit_layer(layer)]['params'].append(lim)
+                add_limit(lim, layer)
     if base in ('Writable', 'Drivable'):
         # target of the base class: give it a driver and limits
         tl = rng.choice(full)
@@ -354,9 +363,8 @@ def gen_modspec(rng, name, big):
             layers[tl]['params'].append({'attr': 'target', 'override': True, 'has_write': rng.random() < 0.85,
                                          'has_read': rng.random() < 0.3})
             for lk in rng.choice([['min', 'max'], ['limits'], ['max'], ['min', 'max', 'limits'], []]):
-                layers[limit_layer(tl)]['params'].append(
-                    {'attr': 'target_' + lk, 'limit': 'target', 'export': True, 'readonly': False,
-                     'has_write': rng.random() < 0.3, 'has_read': False})
+                add_limit({'attr': 'target_' + lk, 'limit': 'target', 'export': True, 'readonly': False,
+                           'has_write': rng.random() < 0.3, 'has_read': False}, tl)
             # (`target` exists in the frappy base class: a hook on it may sit in ANY class of the hierarchy)
             all_params.append((0, {'attr': 'target', 'dt': ['floatr', 0, 100]}))
     if base == 'Readable' and rng.random() < 0.5:
@@ -820,6 +828,8 @@ def spec_index(nodespec):
         for layer in ms['layers']:
             for p in layer['params']:
                 a = p['attr']
+                if p.get('redeclared'):
+                    continue
                 if p.get('limit'):
                     base = known.get(p['limit'])
                     known[a] = None if base is None else (['tuple', [base, base]] if a.endswith('_limits') else base)
@@ -2111,7 +2121,8 @@ def layout_class(lay):
         return 'hooks-only(%d)' % min(len(own), 3)
     first = max(decl)       # (one of) the classes defining a limit parameter first
     if not own:
-        return 'limits-only'
+        return 'limits-only' + ('(a limit declared again by a derived class)' if any(
+            sum(1 for l in lay if l[k]) > 1 for k in range(3)) else '')
     if any(lay[i][3] for i in decl):
         return 'limits+hook:class-with-limit-defines-own-check'
     if all(o > d for o in own for d in decl):
